@@ -77,9 +77,9 @@ def plan(tier, seed):
              "dep_rand": 6000 if q else 80000, "llcp_rand": 2500 if q else 40000, "tt3_rand": 6000 if q else 80000,
              "act_rand": 1000 if q else 20000,
              "dep_live_rand": 500 if q else 6000,
-             "run_cases": 100 if q else 1500,
-             "thr_cases": 12 if q else 150,
-             "snep_cases": 16 if q else 200,
+             "run_cases": 100 if q else 1200,
+             "thr_cases": 12 if q else 120,
+             "snep_cases": 16 if q else 160,
              "card_cases": 120 if q else 1500,
              "llcpconn_cases": 60 if q else 800,
              "timeout": 900 if q else 3600}
